@@ -466,6 +466,12 @@ func (e *Env) resolveModifies(entries []string) (targets []modTarget, all bool) 
 			}
 			continue
 		}
+		if strings.HasPrefix(m, "arrays(") && strings.HasSuffix(m, ")") {
+			// backing arrays of every slice with this element type
+			T, _ := e.resolveType(m[7 : len(m)-1])
+			targets = append(targets, modTarget{key: g.arrKey(T), whole: true})
+			continue
+		}
 		if strings.HasPrefix(m, "maps(") && strings.HasSuffix(m, ")") {
 			// contents of every Go map of this type: maps(K;V)
 			kv := strings.Split(m[5:len(m)-1], ";")
@@ -648,7 +654,32 @@ func (fc *FnCtx) applyContract(ins ssa.Instruction, c *Contract, name string, si
 	old := fc.cur.clone()
 	// frame
 	if !c.ModSet {
-		g.havocAllExcept(fc.cur, name, fc.privateSkip(ins))
+		// the caller's private keys survive, except ghost variables the callee's own contract talks about
+		skip := fc.privateSkip(ins)
+		if len(skip) > 0 {
+			s2 := map[string]bool{}
+			for k := range skip {
+				mentioned := false
+				if strings.HasPrefix(k, "G|") {
+					gn := k[2:]
+					for _, en := range c.Ensures {
+						if strings.Contains(en.Src, gn) {
+							mentioned = true
+						}
+					}
+					for _, gs := range c.GhostSets {
+						if gs.Var == gn {
+							mentioned = true
+						}
+					}
+				}
+				if !mentioned {
+					s2[k] = true
+				}
+			}
+			skip = s2
+		}
+		g.havocAllExcept(fc.cur, name, skip)
 		// a callee cannot reach the caller's private local variable cells
 		fc.restorePrivate(old)
 	} else {
